@@ -1,7 +1,8 @@
 import Mltwist.Lemmas.EmulatorEvalMem
 /-
 Emulator (C03, C04), part 7: `eval` and `EffectsApply(efs, eval)`.  On a state satisfying the invariant,
-for well-formed expressions whose memory loads lie in the domain of C14, evaluation never panics; the
+for well-formed expressions evaluation never panics: it succeeds when the memory loads lie in the domain of C14,
+and is stopped by `checkAccess` (REPAIR F45) otherwise (`eval_total`, `evalEffects_total`); on success the
 result is a pure function of the FINAL state (`valBytes`); the state evolves by provider fills only;
 the report notes exactly the register and memory loads of the expressions, with the values read.
 -/
@@ -124,14 +125,20 @@ structure EvalOut (p : Provider) (code : CodeView) (e : Expr) (c c' : Ctx) : Pro
   present : Present c'.st e
   rep : c'.rep = noteExpr c'.st c.rep e
 
-theorem eval_spec (p : Provider) (code : CodeView) (e : Expr) (c : Ctx) (hi : Inv c.st) (hw : e.wf = true)
-    (hd : EvalDom p code e c) : ∃ c', eval p code e c = .ok (valBytes c'.st e, c') ∧ EvalOut p code e c c' := by
+/-- `eval` on ANY well-formed expression never panics: it succeeds, or `checkAccess` (REPAIR F45) stops it at a
+load that does not fit the address space — exactly what `EvalDom` excludes -/
+theorem eval_total (p : Provider) (code : CodeView) (e : Expr) (c : Ctx) (hi : Inv c.st) (hw : e.wf = true) :
+    (∃ c', eval p code e c = .ok (valBytes c'.st e, c') ∧ EvalOut p code e c c') ∨
+    (∃ c' a w, eval p code e c = .error (.access c' a w) ∧ AccStop p c c' a w ∧ ¬ EvalDom p code e c) := by
   obtain ⟨c1, h1, o1⟩ := evalRegs_spec p code e c hi.regs
   obtain ⟨l1, hl1, hf1, hq1⟩ := o1.log
   have hi1 : Inv c1.st := hf1.inv hi
   have hnr := substRegs_noRegs o1.regsConst e o1.regsIn
   have hwf := substRegs_wf o1.regsConst e hw
-  obtain ⟨c2, h2, o2⟩ := evalMem_spec p (substRegs c1.st.regs e) c1 hi1 hnr hwf (hd _ c1 h1)
+  rcases evalMem_total p (substRegs c1.st.regs e) c1 hi1 hnr hwf with ⟨c2, h2, o2⟩ | ⟨c2, a0, w0, h2, s2, hnd⟩
+  rotate_left
+  · exact Or.inr ⟨c2, a0, w0, by simp only [eval, h1, h2], AccStop.after hl1 hf1 s2, fun hd => hnd (hd _ c1 h1)⟩
+  left
   obtain ⟨l2, hl2, hf2, hq2⟩ := o2.log
   have hregs : c2.st.regs = c1.st.regs := o2.regs
   have hsh := substMem_shape (absOf c2.st) (substRegs c1.st.regs e) hnr hwf
@@ -152,6 +159,13 @@ theorem eval_spec (p : Provider) (code : CodeView) (e : Expr) (c : Ctx) (hi : In
     · exact ⟨by rw [hregs]; exact o1.regsIn, by rw [hregs]; exact o2.memsIn⟩
     · unfold noteExpr
       rw [o2.rep, o1.rep, hregs]
+
+/-- … in particular, when every load lies in the domain of C14, it succeeds -/
+theorem eval_spec (p : Provider) (code : CodeView) (e : Expr) (c : Ctx) (hi : Inv c.st) (hw : e.wf = true)
+    (hd : EvalDom p code e c) : ∃ c', eval p code e c = .ok (valBytes c'.st e, c') ∧ EvalOut p code e c c' := by
+  rcases eval_total p code e c hi hw with h | ⟨_, _, _, _, _, hnd⟩
+  · exact h
+  · exact absurd hd hnd
 
 /-! ### effects -/
 
@@ -233,21 +247,37 @@ theorem EvalsOut.trans {p : Provider} {code : CodeView} {es1 es2 : List Expr} {c
     · exact o2.present e h
   · rw [noteExprs_append, o2.rep, o1.rep, p3]
 
-theorem evalEffect_spec (p : Provider) (code : CodeView) (ef : Effect) (c : Ctx) (hi : Inv c.st)
-    (hw : Effect.wfE ef) (hd : EffDom p code ef c) :
-    ∃ c', evalEffect p code ef c = .ok (evalEff c'.st ef, c') ∧ EvalsOut p code (evalOrder ef) c c' := by
+/-- `EffectApply(ef, eval)` on ANY well-formed effect never panics: it succeeds, or `checkAccess` stops it -/
+theorem evalEffect_total (p : Provider) (code : CodeView) (ef : Effect) (c : Ctx) (hi : Inv c.st)
+    (hw : Effect.wfE ef) :
+    (∃ c', evalEffect p code ef c = .ok (evalEff c'.st ef, c') ∧ EvalsOut p code (evalOrder ef) c c') ∨
+    (∃ c' a w, evalEffect p code ef c = .error (.access c' a w) ∧ AccStop p c c' a w ∧ ¬ EffDom p code ef c) := by
   cases ef with
   | regStore v k w =>
-    obtain ⟨c1, h1, o1⟩ := eval_spec p code v c hi hw hd
-    exact ⟨c1, by simp only [evalEffect, h1, evalEff], EvalsOut.of_eval o1⟩
+    rcases eval_total p code v c hi hw with ⟨c1, h1, o1⟩ | ⟨c1, a0, w0, h1, s1, hnd⟩
+    · exact Or.inl ⟨c1, by simp only [evalEffect, h1, evalEff], EvalsOut.of_eval o1⟩
+    · exact Or.inr ⟨c1, a0, w0, by simp only [evalEffect, h1], s1, hnd⟩
   | memStore v k a w =>
-    obtain ⟨c1, h1, o1⟩ := eval_spec p code v c hi hw.1 hd.1
-    obtain ⟨c2, h2, o2⟩ := eval_spec p code a c1 o1.inv hw.2 (hd.2 _ c1 h1)
+    rcases eval_total p code v c hi hw.1 with ⟨c1, h1, o1⟩ | ⟨c1, a0, w0, h1, s1, hnd⟩
+    rotate_left
+    · exact Or.inr ⟨c1, a0, w0, by simp only [evalEffect, h1], s1, fun hd => hnd hd.1⟩
+    obtain ⟨l1, hl1, hf1, _⟩ := o1.log
+    rcases eval_total p code a c1 o1.inv hw.2 with ⟨c2, h2, o2⟩ | ⟨c2, a0, w0, h2, s2, hnd⟩
+    rotate_left
+    · exact Or.inr ⟨c2, a0, w0, by simp only [evalEffect, h1, h2], AccStop.after hl1 hf1 s2,
+        fun hd => hnd (hd.2 _ c1 h1)⟩
     obtain ⟨l2, _, hf2, _⟩ := o2.log
     have he : SExt c1.st c2.st := sext_of_fill hf2 o1.inv
     have hv := (present_ext he o1.present).2.2.1
-    refine ⟨c2, by simp only [evalEffect, h1, h2, evalEff, hv], ?_⟩
+    refine Or.inl ⟨c2, by simp only [evalEffect, h1, h2, evalEff, hv], ?_⟩
     exact EvalsOut.trans hi (EvalsOut.of_eval o1) (EvalsOut.of_eval o2)
+
+theorem evalEffect_spec (p : Provider) (code : CodeView) (ef : Effect) (c : Ctx) (hi : Inv c.st)
+    (hw : Effect.wfE ef) (hd : EffDom p code ef c) :
+    ∃ c', evalEffect p code ef c = .ok (evalEff c'.st ef, c') ∧ EvalsOut p code (evalOrder ef) c c' := by
+  rcases evalEffect_total p code ef c hi hw with h | ⟨_, _, _, _, _, hnd⟩
+  · exact h
+  · exact absurd hd hnd
 
 def EffsDom (p : Provider) (code : CodeView) : List Effect → Ctx → Prop
   | [], _ => True
@@ -263,20 +293,37 @@ theorem evalEff_ext {s s' : State} (he : SExt s s') {ef : Effect} (h : PresentAl
   | regStore v k w => simp only [evalEff, h2 v (by simp [evalOrder])]
   | memStore v k a w => simp only [evalEff, h2 v (by simp [evalOrder]), h2 a (by simp [evalOrder])]
 
-theorem evalEffects_spec (p : Provider) (code : CodeView) : ∀ (efs : List Effect) (c : Ctx), Inv c.st →
-    (∀ ef ∈ efs, Effect.wfE ef) → EffsDom p code efs c →
-    ∃ c', evalEffects p code efs c = .ok (efs.map (evalEff c'.st), c') ∧ EvalsOut p code (evalOrders efs) c c'
-  | [], c, hi, _, _ =>
-    ⟨c, rfl, ⟨⟨[], by simp, Fill.nil _, fun _ h => (nomatch h)⟩, hi, fun _ h => (nomatch h), rfl⟩⟩
-  | ef :: efs, c, hi, hw, hd => by
-    obtain ⟨c1, h1, o1⟩ := evalEffect_spec p code ef c hi (hw ef (List.mem_cons_self ..)) hd.1
-    obtain ⟨c2, h2, o2⟩ := evalEffects_spec p code efs c1 o1.inv
-      (fun x hx => hw x (List.mem_cons_of_mem _ hx)) (hd.2 _ c1 h1)
+/-- `EffectsApply(efs, eval)` on ANY list of well-formed effects never panics: it succeeds, or `checkAccess` stops
+it at the first load that does not fit the address space -/
+theorem evalEffects_total (p : Provider) (code : CodeView) : ∀ (efs : List Effect) (c : Ctx), Inv c.st →
+    (∀ ef ∈ efs, Effect.wfE ef) →
+    (∃ c', evalEffects p code efs c = .ok (efs.map (evalEff c'.st), c') ∧ EvalsOut p code (evalOrders efs) c c') ∨
+    (∃ c' a w, evalEffects p code efs c = .error (.access c' a w) ∧ AccStop p c c' a w ∧ ¬ EffsDom p code efs c)
+  | [], c, hi, _ =>
+    Or.inl ⟨c, rfl, ⟨⟨[], by simp, Fill.nil _, fun _ h => (nomatch h)⟩, hi, fun _ h => (nomatch h), rfl⟩⟩
+  | ef :: efs, c, hi, hw => by
+    rcases evalEffect_total p code ef c hi (hw ef (List.mem_cons_self ..)) with
+      ⟨c1, h1, o1⟩ | ⟨c1, a0, w0, h1, s1, hnd⟩
+    rotate_left
+    · exact Or.inr ⟨c1, a0, w0, by simp only [evalEffects, h1], s1, fun hd => hnd hd.1⟩
+    obtain ⟨l1, hl1, hf1, _⟩ := o1.log
+    rcases evalEffects_total p code efs c1 o1.inv (fun x hx => hw x (List.mem_cons_of_mem _ hx)) with
+      ⟨c2, h2, o2⟩ | ⟨c2, a0, w0, h2, s2, hnd⟩
+    rotate_left
+    · exact Or.inr ⟨c2, a0, w0, by simp only [evalEffects, h1, h2], AccStop.after hl1 hf1 s2,
+        fun hd => hnd (hd.2 _ c1 h1)⟩
     obtain ⟨l2, _, hf2, _⟩ := o2.log
     have he : SExt c1.st c2.st := sext_of_fill hf2 o1.inv
-    refine ⟨c2, ?_, ?_⟩
+    refine Or.inl ⟨c2, ?_, ?_⟩
     · simp only [evalEffects, h1, h2, List.map_cons, evalEff_ext he o1.present]
     · have := EvalsOut.trans hi o1 o2
       simpa [evalOrders] using this
+
+theorem evalEffects_spec (p : Provider) (code : CodeView) (efs : List Effect) (c : Ctx) (hi : Inv c.st)
+    (hw : ∀ ef ∈ efs, Effect.wfE ef) (hd : EffsDom p code efs c) :
+    ∃ c', evalEffects p code efs c = .ok (efs.map (evalEff c'.st), c') ∧ EvalsOut p code (evalOrders efs) c c' := by
+  rcases evalEffects_total p code efs c hi hw with h | ⟨_, _, _, _, _, hnd⟩
+  · exact h
+  · exact absurd hd hnd
 
 end Mltwist.Lemmas.Emulator
